@@ -61,7 +61,29 @@ def run(tier, replay):
     # law violations on the real function that are not explained by a listed disagreement class
     if (summary["antisymmetry"] or summary["transitivity"] or summary["congruence"]) and not (c.violations or c.known_hits):
         c.violation("laws", "order laws fail on real results although every pair agrees with the reference", c.notes[:5])
-    c.cov["traces_validated_against_impl"] = summary["pairs"]
+    # ---- random pairs and triples (nested values, near-equal neighbours): BSON!Cmp on every recorded pair --------
+    import pure
+    from c10 import show
+    nrand = 4000 if tier == "quick" else 40000
+    rd = os.path.join(work, "rand")
+    os.makedirs(rd)
+    rsum, rrecs = pure.drive(c, bins["c12"], ["rand", rd, str(c.seed), str(nrand)], rd)
+    for rec in rrecs:
+        if rec.get("kind") == "law":
+            c.violation("law:%s" % rec["law"], "bsonkit.Compare breaks %s on %s , %s%s: %s" % (
+                rec["law"], rec.get("lgo"), rec.get("rgo"), (" , " + rec["mgo"]) if "mgo" in rec else "", {k: rec[k] for k in ("lr", "rl", "rm", "lm") if k in rec}), rec)
+        elif rec.get("kind") == "panic":
+            c.violation("panic:random", "bsonkit.Compare panics: %s on %s , %s" % (rec.get("panic"), show(rec["l"]), show(rec["r"])), rec)
+    bads, lines, _, _ = pure.validate(c, rd)
+    for b in bads:
+        e = json.loads(lines[b["l"] - 1])
+        c.violation("cmp:random:%s~%s" % (e["l"]["t"], e["r"]["t"]), "Compare(%s, %s) = %s, reference order (BSON!Cmp) says %s" % (show(e["l"]), show(e["r"]), e["res"], b["exp"]),
+                    {"case": e, "spec": b})
+    c.cov["random_pairs_validated"] = rsum["cases"]
+    c.cov["random_law_checks_on_impl"] = rsum["law_checks"]
+    c.cov["evaluations"] = summary["pairs"] + rsum["cases"]
+    c.cov["distinct_nontrivial"] = len({(json.loads(l)["l"]["t"], json.loads(l)["r"]["t"], json.loads(l)["res"]) for l in lines[::5]})
+    c.cov["traces_validated_against_impl"] = summary["pairs"] + rsum["cases"]
     c.cov["pairs_compared_on_impl"] = summary["pairs"]
     c.cov["triples_checked_on_impl"] = summary["triples"]
     c.cov["triples_checked_on_spec"] = n * n * len(ksel)
